@@ -400,4 +400,412 @@ example :
     (r.tab 2).get 1 0 = (VR_OK, .str "q") ∧ splitLines (r.str 1) = ["h".toList, "1\t".toList] := by
   decide
 
+
+/-! ## histories (several `Run*` calls on one instance, switches and inputs changing in between) -/
+
+theorem hstep_other (cfg : PCfg) (s : HSinks) (e : PEv) (n : Int) (h : e.user ≠ n) :
+    (s.step cfg e).str n = s.str n ∧ (s.step cfg e).file n = s.file n ∧
+    (s.step cfg e).tab n = s.tab n ∧ (s.step cfg e).att n = s.att n := by
+  cases e <;> simp [HSinks.step, PEv.user] at h ⊢
+  · simp [upd, Ne.symm h]
+  · simp [upd, Ne.symm h]
+  · simp [upd, Ne.symm h]
+  · split <;> simp [upd, Ne.symm h]
+
+/-- string sink of `n` in a history call: exactly the text of `n`'s events when the consulted switch is on -/
+theorem hroute_str (cfg : PCfg) (evs : List PEv) (s : HSinks) (n : Int) :
+    (evs.foldl (HSinks.step cfg) s).str n =
+      s.str n ++ (if cfg.strOn n then (evs.filter (·.user = n)).flatMap PEv.text else []) := by
+  induction evs generalizing s with
+  | nil => simp
+  | cons e evs ih =>
+    simp only [List.foldl_cons]
+    rw [ih (s.step cfg e)]
+    by_cases hu : e.user = n
+    · cases e with
+      | msg m on t =>
+        have hm : m = n := hu
+        subst hm
+        simp only [HSinks.step, PEv.user, upd_same, List.filter_cons, PEv.text, decide_true, if_true,
+          List.flatMap_cons]
+        by_cases hb : cfg.strOn m = true <;> cases on <;> simp [hb]
+      | val m on name v r =>
+        have hm : m = n := hu
+        subst hm
+        simp only [HSinks.step, PEv.user, upd_same, List.filter_cons, PEv.text, decide_true, if_true,
+          List.flatMap_cons]
+        by_cases hb : cfg.strOn m = true <;> cases on <;> simp [hb]
+      | endRow m p =>
+        have hm : m = n := hu
+        subst hm
+        simp [HSinks.step, PEv.user, PEv.text]
+      | reopen m =>
+        have hm : m = n := hu
+        subst hm
+        simp only [HSinks.step]
+        split <;> simp [PEv.user, PEv.text]
+    · obtain ⟨a, _, _, _⟩ := hstep_other cfg s e n hu
+      rw [a]; simp [hu]
+
+/-- while no `punch_open` for `n` happens, the attachment of `n` does not change and the file of `n`
+receives the text of `n`'s events exactly when a stream is attached -/
+theorem hroute_file (cfg : PCfg) (evs : List PEv) (s : HSinks) (n : Int)
+    (hno : ∀ e ∈ evs, e ≠ .reopen n) :
+    (evs.foldl (HSinks.step cfg) s).att n = s.att n ∧
+    (evs.foldl (HSinks.step cfg) s).file n =
+      s.file n ++ (if s.att n then (evs.filter (·.user = n)).flatMap PEv.text else []) := by
+  induction evs generalizing s with
+  | nil => simp
+  | cons e evs ih =>
+    simp only [List.foldl_cons]
+    obtain ⟨ha, hf⟩ := ih (s.step cfg e) (fun x hx => hno x (by simp [hx]))
+    rw [ha, hf]
+    by_cases hu : e.user = n
+    · cases e with
+      | msg m on t =>
+        have hm : m = n := hu
+        subst hm
+        simp only [HSinks.step, PEv.user, upd_same, List.filter_cons, PEv.text, decide_true, if_true,
+          List.flatMap_cons]
+        by_cases hb : s.att m = true <;> cases on <;> simp [hb]
+      | val m on name v r =>
+        have hm : m = n := hu
+        subst hm
+        simp only [HSinks.step, PEv.user, upd_same, List.filter_cons, PEv.text, decide_true, if_true,
+          List.flatMap_cons]
+        by_cases hb : s.att m = true <;> cases on <;> simp [hb]
+      | endRow m p =>
+        have hm : m = n := hu
+        subst hm
+        refine ⟨rfl, ?_⟩
+        rw [List.filter_cons_of_pos (by simp [PEv.user])]
+        simp only [HSinks.step, List.flatMap_cons, PEv.text, List.nil_append]
+        rfl
+      | reopen m =>
+        have hm : m = n := hu
+        subst hm
+        exact absurd rfl (hno _ (by simp))
+    · obtain ⟨_, b, _, d⟩ := hstep_other cfg s e n hu
+      rw [b, d]; simp [hu]
+
+/-- `punch_open` for `n` with the file switch on: the file is empty and a stream is attached -/
+theorem hstep_reopen (cfg : PCfg) (s : HSinks) (n : Int) (h : cfg.fileOn n = true) :
+    (s.step cfg (.reopen n)).file n = [] ∧ (s.step cfg (.reopen n)).att n = true ∧
+    (s.step cfg (.reopen n)).str n = s.str n := by
+  simp [HSinks.step, h, upd_same]
+
+/-- **file = string in any history.** Whatever the earlier calls left on disk: if in this call the punch file
+of `n` is opened once, before any text is punched for `n`, and both switches of `n` are on, then after the call
+the file and the string of `n` are byte-identical. -/
+theorem history_sel_file_eq_string (cfg : PCfg) (old : Int → List Char) (pre post : List PEv) (n : Int)
+    (h1 : cfg.strOn n = true) (h2 : cfg.fileOn n = true)
+    (hpre : (pre.filter (·.user = n)).flatMap PEv.text = [])
+    (hpost : ∀ e ∈ post, e ≠ .reopen n) :
+    (punchCall cfg old (pre ++ [PEv.reopen n] ++ post)).file n =
+      (punchCall cfg old (pre ++ [PEv.reopen n] ++ post)).str n := by
+  unfold punchCall
+  rw [List.foldl_append, List.foldl_append]
+  simp only [List.foldl_cons, List.foldl_nil]
+  obtain ⟨ha, hf⟩ := hroute_file cfg post
+    ((pre.foldl (HSinks.step cfg) ⟨fun _ => [], old, fun _ => Table.init, fun _ => false⟩).step cfg (.reopen n)) n hpost
+  obtain ⟨r1, r2, r3⟩ := hstep_reopen cfg
+    (pre.foldl (HSinks.step cfg) ⟨fun _ => [], old, fun _ => Table.init, fun _ => false⟩) n h2
+  rw [hf, hroute_str, r1, r2, r3, hroute_str]
+  simp [h1, hpre]
+
+/-- **a disabled selected-output file receives nothing**: with the file switch of `n` off the file of `n`
+on disk is what the earlier calls left there — for every event trace. -/
+theorem history_sel_file_untouched (cfg : PCfg) (old : Int → List Char) (evs : List PEv) (n : Int)
+    (h : cfg.fileOn n = false) : (punchCall cfg old evs).file n = old n := by
+  have : ∀ s : HSinks, s.att n = false →
+      (evs.foldl (HSinks.step cfg) s).file n = s.file n := by
+    induction evs with
+    | nil => intro s _; rfl
+    | cons e evs ih =>
+      intro s hs
+      simp only [List.foldl_cons]
+      by_cases hu : e.user = n
+      · cases e with
+        | msg m on t =>
+          have hm : m = n := hu
+          subst hm
+          rw [ih _ (by simp [HSinks.step, hs])]; simp [HSinks.step, upd_same, hs]
+        | val m on name v r =>
+          have hm : m = n := hu
+          subst hm
+          rw [ih _ (by simp [HSinks.step, hs])]; simp [HSinks.step, upd_same, hs]
+        | endRow m p =>
+          have hm : m = n := hu
+          subst hm
+          rw [ih _ (by simp [HSinks.step, hs])]; simp [HSinks.step]
+        | reopen m =>
+          have hm : m = n := hu
+          subst hm
+          rw [ih _ (by simp [HSinks.step, h, hs])]; simp [HSinks.step, h]
+      · obtain ⟨_, b, _, d⟩ := hstep_other cfg s e n hu
+        rw [ih _ (by rw [d]; exact hs), b]
+  exact this _ rfl
+
+/-- without a `punch_open` for `n` in the call nothing reaches the file of `n`, even with the switch on
+(no stream is attached after `close_output_files` of the previous call) -/
+theorem history_sel_file_unopened (cfg : PCfg) (old : Int → List Char) (evs : List PEv) (n : Int)
+    (hno : ∀ e ∈ evs, e ≠ .reopen n) : (punchCall cfg old evs).file n = old n := by
+  unfold punchCall
+  rw [(hroute_file cfg evs _ n hno).2]
+  simp
+
+/-- the heading of a block written before its file is opened reaches the string only: the trace recorded for
+user number 2 in a second call that does not redefine two file-backed blocks (DESIGN §9.2) -/
+theorem heading_before_open_differs :
+    let cfg : PCfg := ⟨fun _ => true, fun _ => true⟩
+    let evs := [PEv.reopen 1, .msg 1 true "pH\n".toList, .msg 2 true "pe\n".toList, .reopen 2,
+                .msg 2 true "pe\n".toList, .val 2 true "pe" (.long 4) "4".toList, .msg 2 true "\n".toList,
+                .endRow 2 []]
+    (punchCall cfg (fun _ => "old\n".toList) evs).file 2 = "pe\n4\n".toList ∧
+    (punchCall cfg (fun _ => "old\n".toList) evs).str 2 = "pe\npe\n4\n".toList ∧
+    (punchCall cfg (fun _ => "old\n".toList) evs).file 1 = (punchCall cfg (fun _ => "old\n".toList) evs).str 1 := by
+  decide
+
+/-- **views are functions of the last call only**: strings, line vectors and tables shown after a call do not
+depend on anything earlier calls left behind -/
+theorem call_views_forget (i j : Inst) (c : CallCfg) (e : CallEvs) :
+    (i.call c e).views.outStr = (j.call c e).views.outStr ∧
+    (i.call c e).views.outLines = (j.call c e).views.outLines ∧
+    (i.call c e).views.logStr = (j.call c e).views.logStr ∧
+    (i.call c e).views.logLines = (j.call c e).views.logLines ∧
+    (i.call c e).views.errStr = (j.call c e).views.errStr ∧
+    (i.call c e).views.errLines = (j.call c e).views.errLines ∧
+    (i.call c e).views.warnStr = (j.call c e).views.warnStr ∧
+    (i.call c e).views.warnLines = (j.call c e).views.warnLines ∧
+    (∀ n, (i.call c e).views.selStr n = (j.call c e).views.selStr n) ∧
+    (∀ n, (i.call c e).views.selLines n = (j.call c e).views.selLines n) ∧
+    (∀ n, (i.call c e).views.tab n = (j.call c e).views.tab n) := by
+  have hs : ∀ n, (punchCall c.sel i.disk.sel e.pevs).str n = (punchCall c.sel j.disk.sel e.pevs).str n := by
+    intro n; simp [punchCall, hroute_str]
+  have ht : ∀ (o1 o2 : Int → List Char), (punchCall c.sel o1 e.pevs).tab = (punchCall c.sel o2 e.pevs).tab := by
+    intro o1 o2
+    unfold punchCall
+    have : ∀ s1 s2 : HSinks, s1.tab = s2.tab →
+        (e.pevs.foldl (HSinks.step c.sel) s1).tab = (e.pevs.foldl (HSinks.step c.sel) s2).tab := by
+      induction e.pevs with
+      | nil => intro s1 s2 h; simpa
+      | cons x xs ih =>
+        intro s1 s2 h
+        simp only [List.foldl_cons]
+        apply ih
+        cases x <;> simp only [HSinks.step, h] <;> (try split) <;> simp [h]
+    exact this _ _ rfl
+  refine ⟨rfl, rfl, rfl, rfl, rfl, rfl, rfl, rfl, ?_, ?_, ?_⟩
+  · intro n; exact hs n
+  · intro n; simp only [Inst.call]; rw [hs n]
+  · intro n; simp only [Inst.call]; rw [ht i.disk.sel j.disk.sel]
+
+/-- after any history the views are those of the last call run on a fresh instance -/
+theorem run_views_last (h : List (CallCfg × CallEvs)) (c : CallCfg) (e : CallEvs) (n : Int) :
+    let a := (Inst.run {} (h ++ [(c, e)])).views
+    let b := (Inst.call {} c e).views
+    a.outStr = b.outStr ∧ a.outLines = b.outLines ∧ a.logLines = b.logLines ∧ a.errLines = b.errLines ∧
+    a.selStr n = b.selStr n ∧ a.selLines n = b.selLines n ∧ a.tab n = b.tab n := by
+  simp only [Inst.run, List.foldl_append, List.foldl_cons, List.foldl_nil]
+  obtain ⟨h1, h2, _, h4, _, h6, _, _, h9, h10, h11⟩ :=
+    call_views_forget (h.foldl (fun i ce => i.call ce.1 ce.2) {}) {} c e
+  exact ⟨h1, h2, h4, h6, h9 n, h10 n, h11 n⟩
+
+/-- output and log in a history call: the file is re-created at the start of a call whose file switch is on,
+so with both switches on file and string are byte-identical whatever was on disk; with the file switch off
+the file on disk is untouched; a disabled string sink is empty -/
+theorem call_msg_streams (i : Inst) (c : CallCfg) (e : CallEvs) :
+    (c.out.fileOn = true → c.out.strOn = true → (i.call c e).disk.out = (i.call c e).views.outStr) ∧
+    (c.log.fileOn = true → c.log.strOn = true → (i.call c e).disk.log = (i.call c e).views.logStr) ∧
+    (c.out.fileOn = false → (i.call c e).disk.out = i.disk.out) ∧
+    (c.log.fileOn = false → (i.call c e).disk.log = i.disk.log) ∧
+    (c.err.fileOn = false → (i.call c e).disk.err = i.disk.err) ∧
+    (c.out.strOn = false → (i.call c e).views.outStr = [] ∧ (i.call c e).views.outLines = []) ∧
+    (c.log.strOn = false → (i.call c e).views.logStr = [] ∧ (i.call c e).views.logLines = []) := by
+  refine ⟨?_, ?_, ?_, ?_, ?_, ?_, ?_⟩
+  · intro h1 h2; simp [Inst.call, openTrunc, h1, msgs_file_eq_string c.out e.outs h2 h1]
+  · intro h1 h2; simp [Inst.call, openTrunc, h1, msgs_file_eq_string c.log e.logs h2 h1]
+  · intro h; simp [Inst.call, openTrunc, h, (msgs_disabled_nothing c.out e.outs).2 h]
+  · intro h; simp [Inst.call, openTrunc, h, (msgs_disabled_nothing c.log e.logs).2 h]
+  · intro h
+    have : errFileChunks c.err e.errs = [] := by
+      induction e.errs with
+      | nil => rfl
+      | cons x xs ih => cases x <;> simp [errFileChunks, h, ih]
+    simp [Inst.call, openTrunc, h, this]
+  · intro h; simp [Inst.call, h, (msgs_disabled_nothing c.out e.outs).1 h]
+  · intro h; simp [Inst.call, h, (msgs_disabled_nothing c.log e.logs).1 h]
+
+/-- line vectors of a history call: the lines of this call's string when the switch is on, nothing otherwise;
+a disabled selected-output string sink is empty -/
+theorem call_lines_spec (i : Inst) (c : CallCfg) (e : CallEvs) (n : Int) :
+    (c.out.strOn = true → (i.call c e).views.outLines = splitLines (i.call c e).views.outStr) ∧
+    (c.log.strOn = true → (i.call c e).views.logLines = splitLines (i.call c e).views.logStr) ∧
+    (i.call c e).views.errLines = splitLines (i.call c e).views.errStr ∧
+    (c.sel.strOn n = true → (i.call c e).views.selLines n = splitLines ((i.call c e).views.selStr n)) ∧
+    (c.sel.strOn n = false → (i.call c e).views.selLines n = [] ∧ (i.call c e).views.selStr n = []) := by
+  refine ⟨?_, ?_, rfl, ?_, ?_⟩
+  · intro h; simp [Inst.call, h]
+  · intro h; simp [Inst.call, h]
+  · intro h; simp [Inst.call, h]
+  · intro h; simp [Inst.call, h, punchCall, hroute_str]
+
+/-- non-vacuity: two calls; the second keeps the file switch of 1 on without re-opening (file keeps the first
+call's content), turns the output file off (file keeps call 1's text) and the output string on -/
+example :
+    let c1 : CallCfg := ⟨⟨false, true⟩, ⟨false, false⟩, ⟨true, true, false⟩, ⟨fun _ => true, fun _ => true⟩⟩
+    let c2 : CallCfg := ⟨⟨true, false⟩, ⟨false, false⟩, ⟨true, true, false⟩, ⟨fun _ => false, fun _ => true⟩⟩
+    let e1 : CallEvs := { outs := [⟨true, "a\n".toList⟩], pevs := [.reopen 1, .msg 1 true "h\n".toList] }
+    let e2 : CallEvs := { outs := [⟨true, "b\n".toList⟩], pevs := [.msg 1 true "h\n".toList] }
+    let r := Inst.run {} [(c1, e1), (c2, e2)]
+    r.disk.out = "a\n".toList ∧ r.views.outStr = "b\n".toList ∧ r.views.outLines = ["b".toList] ∧
+    r.disk.sel 1 = "h\n".toList ∧ r.views.selStr 1 = [] ∧ r.views.selLines 1 = [] := by
+  decide
+
+/-! ## heading lines per call (`do_run` prologue) -/
+
+theorem filter_const_false {α} (l : List α) : l.filter (fun _ => false) = [] := by
+  induction l with
+  | nil => rfl
+  | cons a l ih => simp [ih]
+
+theorem count_head_map_opened (n : Int) (l : List Int) : (l.map Sk.opened).count (Sk.head n) = 0 := by
+  induction l with
+  | nil => rfl
+  | cons a l ih => simp [ih]
+
+theorem count_head_map_head (n : Int) (l : List Int) : (l.map Sk.head).count (Sk.head n) = l.count n := by
+  induction l with
+  | nil => rfl
+  | cons a l ih =>
+    simp only [List.map_cons, List.count_cons, ih]
+    by_cases h : a = n <;> simp [h]
+
+/-- **one heading line per block and call with the hoisted loop.** First simulation of a call that reads no
+SELECTED_OUTPUT block: every defined block gets exactly one heading line, whatever the file switches,
+attachments and the PRINT -selected_output state. -/
+theorem first_sim_heads_hoisted (fileSw : Int → Bool) (prPunch : Bool) (s : SoSt) (hn : s.defs.Nodup)
+    (n : Int) :
+    countHead n (simPrologue true fileSw true prPunch true [] s).2 = if n ∈ s.defs then 1 else 0 := by
+  have hc : s.defs.count n = if n ∈ s.defs then 1 else 0 := hn.count
+  simp only [simPrologue, readBlocks, if_true, openLoop, countHead, List.nil_append]
+  by_cases hp : (prPunch && !s.defs.isEmpty) = true
+  · simp only [hp, if_true, openLoopHoist]
+    by_cases ht : s.defs.filter (fun d => fileSw d && !s.att d) = []
+    · simp [ht, tidyPunch, count_head_map_head, hc]
+    · simp [ht, tidyPunch, List.count_append, count_head_map_opened, count_head_map_head, hc, filter_const_false]
+  · simp [hp, tidyPunch, count_head_map_head, hc]
+
+theorem openLoopIn_none (fileSw : Int → Bool) (ds : List Int) (s : SoSt) (acc : List Sk)
+    (h : ∀ d ∈ ds, (fileSw d && !s.att d) = false) : openLoopIn fileSw ds s acc = (s, acc) := by
+  induction ds with
+  | nil => rfl
+  | cons d ds ih =>
+    have hd := h d (by simp)
+    simp only [openLoopIn, hd]
+    exact ih (fun x hx => h x (by simp [hx]))
+
+/-- the loop as written, when exactly one block has to be opened (`d`): one `tidy_punch` pass -/
+theorem openLoopIn_one (fileSw : Int → Bool) (pre post : List Int) (d : Int) (s : SoSt) (acc : List Sk)
+    (hpre : ∀ x ∈ pre, (fileSw x && !s.att x) = false)
+    (hd : (fileSw d && !s.att d) = true)
+    (hpost : ∀ x ∈ post, (fileSw x && !s.att x) = false) (hnd : d ∉ post) :
+    (openLoopIn fileSw (pre ++ d :: post) s acc).2 =
+      acc ++ Sk.opened d ::
+        (tidyPunch { s with att := upd s.att d (fun _ => true), newDef := upd s.newDef d (fun _ => true) }).2 ∧
+    (openLoopIn fileSw (pre ++ d :: post) s acc).1.newDef = fun _ => false := by
+  induction pre generalizing acc with
+  | nil =>
+    simp only [List.nil_append, openLoopIn, hd, if_true]
+    rw [openLoopIn_none]
+    · simp [tidyPunch]
+    · intro x hx
+      have hne : x ≠ d := fun h => hnd (h ▸ hx)
+      simpa [tidyPunch, upd, hne] using hpost x hx
+  | cons p pre ih =>
+    have hp := hpre p (by simp)
+    simp only [List.cons_append, openLoopIn, hp]
+    exact ih acc (fun x hx => hpre x (by simp [hx]))
+
+/-- **partial** (the loop as written): when at most one block has to be opened in the first simulation of a
+call that reads no SELECTED_OUTPUT block, every block gets exactly one heading line.
+Full statement (false for the code as written, see `first_sim_heads_inloop_witness`):
+  `∀ fileSw s, s.defs.Nodup → n ∈ s.defs → countHead n (simPrologue false fileSw true true true [] s).2 = 1`. -/
+theorem first_sim_heads_inloop_partial (fileSw : Int → Bool) (s : SoSt) (hn : s.defs.Nodup) (n : Int)
+    (hone : (∀ x ∈ s.defs, (fileSw x && !s.att x) = false) ∨
+      ∃ pre d post, s.defs = pre ++ d :: post ∧ (∀ x ∈ pre, (fileSw x && !s.att x) = false) ∧
+        (fileSw d && !s.att d) = true ∧ (∀ x ∈ post, (fileSw x && !s.att x) = false)) :
+    countHead n (simPrologue false fileSw true true true [] s).2 = if n ∈ s.defs then 1 else 0 := by
+  have hc : s.defs.count n = if n ∈ s.defs then 1 else 0 := hn.count
+  have e : (simPrologue false fileSw true true true [] s).2 =
+      (if !s.defs.isEmpty then openLoopIn fileSw s.defs { s with newDef := fun _ => true } [] else
+          ({ s with newDef := fun _ => true }, [])).2 ++
+      (tidyPunch (if !s.defs.isEmpty then openLoopIn fileSw s.defs { s with newDef := fun _ => true } [] else
+          ({ s with newDef := fun _ => true }, [])).1).2 := by
+    simp [simPrologue, readBlocks, openLoop]
+  rw [countHead, e]
+  by_cases he : s.defs.isEmpty = true
+  · have : s.defs = [] := by simpa using he
+    simp [this, tidyPunch]
+  · simp only [he, Bool.not_false, if_true]
+    rcases hone with h0 | ⟨pre, d, post, hdefs, hpre, hd, hpost⟩
+    · rw [openLoopIn_none fileSw s.defs { s with newDef := fun _ => true } [] (by simpa using h0)]
+      simp [tidyPunch, count_head_map_head, hc]
+    · have hnd : d ∉ post := by
+        have := hn; rw [hdefs] at this
+        have h2 := (List.nodup_append.1 this).2.1
+        exact (List.nodup_cons.1 h2).1
+      obtain ⟨h1, h2⟩ := openLoopIn_one fileSw pre post d { s with newDef := fun _ => true } []
+        (by simpa using hpre) (by simpa using hd) (by simpa using hpost) hnd
+      rw [← hdefs] at h1 h2
+      rw [h1]
+      simp only [tidyPunch, h2, List.nil_append]
+      have hall : (s.defs.filter (upd (fun _ => true) d (fun _ => true))) = s.defs := by
+        apply List.filter_eq_self.2; intro x _; simp [upd]
+      simp [hall, count_head_map_head, hc, filter_const_false]
+
+/-- the loop as written gives the second file-backed block two heading lines (first call after the definitions
+were read in an earlier call; both file switches on): the recorded skeleton of the replay in DESIGN §9.2 -/
+theorem first_sim_heads_inloop_witness :
+    let s : SoSt := { defs := [1, 2] }
+    (simPrologue false (fun _ => true) true true true [] s).2 =
+      [Sk.opened 1, Sk.head 1, Sk.head 2, Sk.opened 2, Sk.head 2] ∧
+    countHead 2 (simPrologue false (fun _ => true) true true true [] s).2 = 2 ∧
+    (simPrologue true (fun _ => true) true true true [] s).2 =
+      [Sk.opened 1, Sk.opened 2, Sk.head 1, Sk.head 2] := by
+  decide
+
+/-- reading a block (re)creates it with `new_def` set: its heading is written once by the `tidy_punch` of
+`tidy_model`, and nothing is written for blocks that are neither new nor re-read in a later simulation -/
+example :
+    let s : SoSt := { defs := [1, 2], att := fun n => n == 1 }
+    (simPrologue false (fun _ => true) false true true [(3, true), (1, false)] s).2 =
+      [Sk.opened 3, Sk.opened 2, Sk.head 2, Sk.head 3] := by
+  decide
+
+/-! ## print formats -/
+
+/-- under `-high_precision true` every double-valued result column is printed with 12 decimals in scientific
+notation in a 20-character field -/
+theorem fmtOf_high_precision (k : ColKind) (h : k = .gE ∨ k = .e4 ∨ k = .f3 ∨ k = .f4) :
+    fmtOf true k = "%20.12e\t" := by
+  rcases h with h | h | h | h <;> subst h <;> rfl
+
+/-- the precision flag changes the format of every built-in column class -/
+theorem fmtOf_flag_matters (k : ColKind) (h : ∀ len tab, k ≠ .userStr len tab) :
+    fmtOf true k ≠ fmtOf false k := by
+  cases k with
+  | userStr len tab => exact absurd rfl (h len tab)
+  | _ => decide
+
+/-- USER_PUNCH strings: never truncated — the bounded format is chosen only when the string fits the field -/
+theorem fmtOf_userStr (hp : Bool) (len : Nat) (tab : Bool) :
+    (len ≤ fieldWidth hp → fmtOf hp (.userStr len tab) =
+        (if hp then "%20.20s" else "%12.12s") ++ (if tab then "\t" else "")) ∧
+    (fieldWidth hp < len → fmtOf hp (.userStr len tab) = "%s" ++ (if tab then "\t" else "")) := by
+  constructor
+  · intro h; simp [fmtOf, h]
+  · intro h; have : ¬ len ≤ fieldWidth hp := by omega
+    simp [fmtOf, this]
+
 end PhreeqcVerif.Route
